@@ -180,7 +180,7 @@ func C03Plan() *vlib.Plan {
 		}
 		p.Bounds = map[string]any{"server_role_peers": len(c03ServerPeers), "client_role_peers": len(c03ClientPeers), "method_lists": 4}
 		for _, role := range []string{"client", "server"} {
-			for _, kind := range []string{"plain", "authed-keyless", "keyed-unauth"} {
+			for _, kind := range []string{"plain", "authed-keyless", "keyed-unauth", "keyed-unauth-predicted", "plain-predicted"} {
 				role, kind := role, kind
 				yield(vlib.Case{ID: fmt.Sprintf("resumed/%s/%s", role, kind), Run: func() *vlib.Result {
 					res := &vlib.Result{}
@@ -250,9 +250,19 @@ func c03Resumed(res *vlib.Result, role, kind string, auth, enc security.Security
 	case "keyed-unauth":
 		ca, ce = security.SecurityNever, security.SecurityRequired
 	}
+	sa := ca
+	switch kind {
+	case "keyed-unauth-predicted":
+		// the client wanted authentication (PREFERRED, with a common method) but the
+		// server declined: nothing ran, whatever the client's own table predicted
+		ca, sa, ce, methods = security.SecurityPreferred, security.SecurityNever, security.SecurityRequired, []security.AuthMethod{mCTB}
+	case "plain-predicted":
+		ca, sa, ce, methods = security.SecurityPreferred, security.SecurityNever, security.SecurityNever, []security.AuthMethod{mCTB}
+		cc, sc = nil, nil
+	}
 	cache := security.NewSessionCache()
 	c0 := baseCfg(ca, ce, methods, cc, false)
-	s0 := baseCfg(ca, ce, methods, sc, true)
+	s0 := baseCfg(sa, ce, methods, sc, true)
 	c0.SessionCache, c0.Command = cache, 5
 	r0 := hsRun(hsOpts{ClientCfg: c0, ServerCfg: s0, App: true})
 	if r0.C.Err != nil || r0.S.Err != nil {
@@ -264,7 +274,7 @@ func c03Resumed(res *vlib.Result, role, kind string, auth, enc security.Security
 	sessAuthed := r0.S.Neg.Authentication
 	// second connection: E has the strict policy, the peer keeps the lenient one
 	c1 := baseCfg(ca, ce, methods, cc, false)
-	s1 := baseCfg(ca, ce, methods, sc, true)
+	s1 := baseCfg(sa, ce, methods, sc, true)
 	c1.SessionCache, c1.Command, c1.SessionID = cache, 5, sid
 	if role == "client" {
 		c1.Authentication, c1.Encryption = auth, enc
